@@ -49,7 +49,7 @@ def Kv.upd (s : Kv) (ks : KsId) (f : Tree → Tree) : KsId → Tree :=
 def applyItems (trees : KsId → Tree) (seqno : Nat) : List (KsId × Key × Option Val) → KsId → Tree
   | [] => trees
   | (ks, k, v) :: r =>
-    applyItems (fun x => if x = ks then (trees ks).apply (itemEntry seqno k v) else trees x) seqno r
+    applyItems (fun x => if x = ks then (trees ks).applyR (itemEntry seqno k v) else trees x) seqno r
 
 def kvStep (s : Kv) : KvOp → Kv × KvOut
   | .insert ks k v => ({ trees := s.upd ks (·.apply ⟨k, s.seqno, .value, v⟩), seqno := s.seqno + 1 }, .unit)
@@ -116,9 +116,9 @@ def specRun (m : KsId → KMap) : List KvOp → (KsId → KMap) × List KvOut
   | [] => (m, [])
   | o :: os => let (m1, out) := specStep m o; let (m2, outs) := specRun m1 os; (m2, out :: outs)
 
-/-- documented limits: a batch / an ingestion does not name the same key of a keyspace twice -/
+/-- what the real code rejects: an ingestion must be fed strictly ascending keys, so it does not
+    name a key twice.  (A batch may name a key any number of times: the last item wins.) -/
 def KvOp.WF : KvOp → Prop
-  | .batch items => (items.map fun (ks, k, _) => (ks, k)).Nodup
   | .ingest _ items => (items.map (·.1)).Nodup
   | _ => True
 
